@@ -572,6 +572,10 @@ package ast
 //@   ensures[C01,C02] atoms: forall a *ExpressionAtom :: inAtomIdx(workingMem, variable, a) ==> !a.Evaluated
 //@   ensures[C13] onlyexprs: forall x *Expression :: !inExprIdx(workingMem, variable, x) ==> x.Evaluated == old(x.Evaluated)
 //@   ensures[C13] onlyatoms: forall a *ExpressionAtom :: !inAtomIdx(workingMem, variable, a) ==> a.Evaluated == old(a.Evaluated)
+// forgetting never remembers: what was not remembered before is not remembered after (lets two resets in a row be combined)
+//@   ensures neverremembers: (forall x *Expression :: !old(x.Evaluated) ==> !x.Evaluated) && (forall a *ExpressionAtom :: !old(a.Evaluated) ==> !a.Evaluated)
+//@   invariant@1 (forall x *Expression :: !old(x.Evaluated) ==> !x.Evaluated) && (forall a *ExpressionAtom :: !old(a.Evaluated) ==> !a.Evaluated)
+//@   invariant@2 (forall x *Expression :: !old(x.Evaluated) ==> !x.Evaluated) && (forall a *ExpressionAtom :: !old(a.Evaluated) ==> !a.Evaluated)
 //@   invariant@1 forall k int :: 0 <= k && k < $i ==> !arr[k].Evaluated
 //@   invariant@1 forall x *Expression :: !(exists k int :: 0 <= k && k < $i && arr[k] == x) ==> x.Evaluated == old(x.Evaluated)
 //@   invariant@2 forall k int :: 0 <= k && k < $i ==> !arr[k].Evaluated
@@ -579,6 +583,8 @@ package ast
 
 // I3 + C04: a successful assignment writes exactly the addressed location with exactly the given value, through the setter
 // of the addressed shape, and forgets every expression / atom filed under the assigned variable (and nothing else)
+//@ extern pure func fn_IsMap_0(n Ref) bool
+//@ macro func intoCollection(e *Variable) bool { return e.Variable != nil && (len(e.Name) == 0 || fn_IsMap_0(e.Variable.ValueNode)) }
 //@ func (e *Variable) Assign(newVal, dataContext, memory) (err)
 //@   serves C01 C02 C04 C08 C13
 //@   requires treeWF()
@@ -590,7 +596,15 @@ package ast
 //@   ghost_entry $asgVarSnap = $varRes
 //@   checks[C01,C04,C08] ownerfresh: err == nil && e.Variable != nil ==> $resN[e.Variable] > old($resN[e.Variable]) && $resCtx[e.Variable] == dataContext
 //@   ensures[C01,C02,C04] invalidates: err == nil ==> (forall x *Expression :: inExprIdx(memory, e, x) ==> !x.Evaluated) && (forall a *ExpressionAtom :: inAtomIdx(memory, e, a) ==> !a.Evaluated)
-//@   ensures[C13] nothingelse: (forall x *Expression :: old(x.Evaluated) && !inExprIdx(memory, e, x) ==> x.Evaluated) && (forall a *ExpressionAtom :: old(a.Evaluated) && !inAtomIdx(memory, e, a) ==> a.Evaluated)
+// an ELEMENT write (slice element, map entry) also forgets everything that mentions the collection: the same element can be named
+// by another selector expression (F.M[F.K] and F.M["k"]), and what is remembered about the collection itself (F.M.Len()) is stale
+// too. From C01/C02/C04 ("computed on the facts as left by the preceding action"), not from the code.
+// The same holds for the member of a map-like owner written in the dot form (a JSON object: J.m.k and J.m["k"]); a struct field has
+// no second name, so a field write forgets nothing about its owner (C13).
+//@   ensures[C01,C02,C04] invalidatescollection: err == nil && intoCollection(e) ==> (forall x *Expression :: inExprIdx(memory, e.Variable, x) ==> !x.Evaluated) && (forall a *ExpressionAtom :: inAtomIdx(memory, e.Variable, a) ==> !a.Evaluated)
+// C13: nothing else is forgotten (for a write into a collection "else" is: what mentions neither the element nor its collection)
+//@   ensures[C13] nothingelse: (forall x *Expression :: old(x.Evaluated) && !inExprIdx(memory, e, x) && !(intoCollection(e) && inExprIdx(memory, e.Variable, x)) ==> x.Evaluated)
+//@        && (forall a *ExpressionAtom :: old(a.Evaluated) && !inAtomIdx(memory, e, a) && !(intoCollection(e) && inAtomIdx(memory, e.Variable, a)) ==> a.Evaluated)
 //@   ensures[C04] toplevel: len(e.Name) > 0 && e.Variable == nil && err == nil ==> $addN == old($addN) + 1 && $addKey == e.Name && boxedRV($addObj) == newVal && $setN == old($setN)
 //@   ensures[C04] field: e.Variable != nil && len(e.Name) > 0 && err == nil ==> $setN == old($setN) + 1 && $setKind == 1 && $setNode == e.Variable.ValueNode && $setField == e.Name && $setVal == newVal && $addN == old($addN)
 //@   ensures[C04] element: e.Variable != nil && len(e.Name) == 0 && err == nil ==> $setN == old($setN) + 1 && $setNode == e.Variable.ValueNode && $setVal == newVal && $addN == old($addN)
